@@ -463,6 +463,11 @@ public:
       ASMJIT_PROPAGATE(handle_block_with_unknown_jump(block));
     }
 
+    // Merged ids may form chains, make every id map directly to its representative.
+    for (size_t i = 0; i < _shared_assignments_map.size(); i++) {
+      _shared_assignments_map[i] = resolve_shared_assignment_id(uint32_t(i));
+    }
+
     return _pass.init_shared_assignments(_shared_assignments_map);
   }
 
@@ -555,11 +560,13 @@ public:
       }
 
       if (successor->has_shared_assignment_id()) {
+        // Always link representatives - ids that were already merged with other ids must stay connected to them.
+        uint32_t successor_assignment_id = resolve_shared_assignment_id(successor->shared_assignment_id());
         if (shared_assignment_id == Globals::kInvalidId) {
-          shared_assignment_id = successor->shared_assignment_id();
+          shared_assignment_id = successor_assignment_id;
         }
         else {
-          _shared_assignments_map[successor->shared_assignment_id()] = shared_assignment_id;
+          _shared_assignments_map[successor_assignment_id] = shared_assignment_id;
         }
       }
       else {
@@ -570,6 +577,15 @@ public:
       }
     }
     return Error::kOk;
+  }
+
+  //! Returns the representative of the set of shared assignment ids `id` has been merged into.
+  [[nodiscard]]
+  uint32_t resolve_shared_assignment_id(uint32_t id) const noexcept {
+    while (_shared_assignments_map[id] != id) {
+      id = _shared_assignments_map[id];
+    }
+    return id;
   }
 
   [[nodiscard]]
